@@ -359,6 +359,10 @@ def stepOK (r : Rec) : Bool :=
          -- room is made by evicting queued, never leased, messages, one per message stored at most,
          -- exactly as many as needed (histories that were lifted above max_depth excluded)
          e.all (fun m => m.st == .queued) &&
+         -- the evicted messages are the oldest queued ones: none is younger than a queued message of
+         -- `before` that survives the step
+         e.all (fun x => (r.before.filter (fun s => s.st == .queued && !vanished r s)).all
+           (fun s => decide (x.recv ≤ s.recv))) &&
          (a > d ||
            ((memDelivered || e.length ≤ k) && countP isActive r.after ≤ d && e.length ≤ need + (if memDelivered then v.length else 0) &&
             need ≤ v.length && (memDelivered || v.length == need || e.isEmpty)))
